@@ -5,7 +5,7 @@ from __future__ import annotations
 
 from . import expr as E
 from .core import Report
-from .front import Program
+from .front import AnalysisError, Program
 from .gworld import GWorld
 from .interp import FuncV, IterV, Obj, Raised, TV
 from .wire import DESTS, LINK, LINKVSL, NODE, ORIGINS
@@ -32,7 +32,15 @@ def construct(prog: Program, cls_fq: str, args, kwargs):
     o = Obj(cls_fq, "obj", kind="other")
     init = prog.lookup_method(cls_fq, "__init__")
     if init is not None:
-        it.call_function(FuncV(init, o, defcls=init.cls), list(args), dict(kwargs))
+        try:
+            it.call_function(FuncV(init, o, defcls=init.cls), list(args), dict(kwargs))
+        except AnalysisError:
+            ev = [e for e in it.events if e.kind == "symbolic-truth"]
+            if ev:
+                # python-level coercion / branching on an argument: a symbolic parameter is
+                # not stored as given (casadi: float(SX) is nan, float(MX) raises)
+                raise Raised("TypeError", ev[-1].node, None, ev[-1].detail)
+            raise
     return o
 
 
